@@ -179,6 +179,42 @@ def split_table_bound(prog, res):
     res.need(R, 2)
 
 
+def per_block_output_limit(prog, res):
+    """T3: the one-shot frame decoder lowers the output limit of a block when it decodes in place (the block may not write
+    over the input it is reading).  That limit is per block: the variable handed to the block decoder as its capacity must
+    be set back to the end of dst at the start of EVERY iteration of the block loop (its `= oend` definition lies on the loop's
+    cycle), otherwise the first block's limit sticks and later blocks fail or, after a raw block, run without any limit."""
+    R = "T3.per-block-output-limit"
+    f = prog.fn("ZSTD_decompressFrame")
+    lim = None
+    for b, i, c in f.calls("ZSTD_decompressBlock_internal"):
+        for y in f.walk_resolved(c["a"][2]):
+            if y.get("k") == "ref" and y.get("rk") in ("l", "sl") and len([d for d in f.local_defs().get(y["n"], []) if d is not None]) >= 2:
+                lim = y["n"]
+    res.check(lim is not None, R, "limit-variable", f.loc, "the block decoder's capacity derives from a per-block limit", "per-block output limit not found in ZSTD_decompressFrame")
+    if lim is None:
+        return
+    resets = []
+    for b, i, r in f.roots():
+        for x in walk(r):
+            init = None
+            if x.get("k") == "decl":
+                for v in x.get("vars", []):
+                    if v.get("n") == lim and v.get("init") is not None:
+                        init = v["init"]
+            elif x.get("k") == "asg" and strip_casts(x["lhs"]).get("n") == lim and x.get("op") == "=":
+                init = x["rhs"]
+            if init is not None:
+                e = strip_casts(f.resolve_x(init))
+                if e is not None and e.get("k") == "ref":       # plain copy of the end-of-destination pointer
+                    resets.append((b, i))
+    on_cycle = [r_ for r_ in resets if r_ in f.flow([(r_[0], r_[1] + 1)])]
+    res.check(bool(on_cycle), R, "reset-every-iteration", f.loc, "the limit is set back to the end of dst inside the block loop",
+              "ZSTD_decompressFrame sets the per-block output limit once, outside the block loop: when decoding in place the first block's limit sticks - "
+              "multi-block frames fail with dstSize_tooSmall within the advertised margin, and after a raw block the next block is decoded with no limit at all")
+    res.need(R, 2)
+
+
 def run(tier):
     res = Result("C06", tier)
     tus, info = extract(["compress", "decompress", "common"])
@@ -192,6 +228,7 @@ def run(tier):
     checked_bulk_writes(prog, res)
     wildcopy_margins(prog, res)
     split_table_bound(prog, res)
+    per_block_output_limit(prog, res)
     t4_common.run(prog, res, "T4.error-discipline", ["lib/compress/"], 220)
 
     # the one deliberate swallow: dstSize_tooSmall -> 0 only when the raw block still fits
